@@ -100,46 +100,8 @@ from pico8.game import file as pfile, game
 from pico8.game.formatter import p8png
 from pico8 import util
 util.set_verbosity(util.VERBOSITY_QUIET)
-def png_decode(data):
-    """independent PNG decoder: 8-bit RGBA, non-interlaced"""
-    assert data[:8] == b'\x89PNG\r\n\x1a\n', 'signature'
-    pos, idat, hdr = 8, b'', None
-    while pos < len(data):
-        ln, typ = struct.unpack('>I4s', data[pos:pos+8])
-        body = data[pos+8:pos+8+ln]
-        crc = struct.unpack('>I', data[pos+8+ln:pos+12+ln])[0]
-        assert zlib.crc32(typ + body) & 0xffffffff == crc, 'crc of %r' % typ
-        if typ == b'IHDR': hdr = struct.unpack('>IIBBBBB', body)
-        elif typ == b'IDAT': idat += body
-        elif typ == b'IEND': break
-        pos += 12 + ln
-    w, h, depth, ctype, comp, flt, inter = hdr
-    assert (depth, ctype, inter) == (8, 6, 0), 'not RGBA8 non-interlaced: %r' % (hdr,)
-    raw = zlib.decompress(idat)
-    bpp, stride = 4, w * 4
-    rows, prev, p = [], bytearray(stride), 0
-    for y in range(h):
-        f = raw[p]; line = bytearray(raw[p+1:p+1+stride]); p += 1 + stride
-        for i in range(stride):
-            a = line[i-bpp] if i >= bpp else 0
-            b = prev[i]
-            c = prev[i-bpp] if i >= bpp else 0
-            if f == 1: line[i] = (line[i] + a) & 255
-            elif f == 2: line[i] = (line[i] + b) & 255
-            elif f == 3: line[i] = (line[i] + ((a + b) >> 1)) & 255
-            elif f == 4:
-                pa, pb, pc = abs(b - c), abs(a - c), abs(a + b - 2 * c)
-                pr = a if pa <= pb and pa <= pc else (b if pb <= pc else c)
-                line[i] = (line[i] + pr) & 255
-        rows.append(line); prev = line
-    return w, h, rows
-def mem_from_pixels(w, h, rows):
-    out = bytearray()
-    for y in range(h):
-        for x in range(w):
-            r, g, b, a = rows[y][4*x:4*x+4]
-            out.append(((a & 3) << 6) | ((r & 3) << 4) | ((g & 3) << 2) | (b & 3))
-    return out
+sys.path.insert(0, @VERIF@)
+from specs.pngref import png_decode, mem_from_pixels
 rnd = random.Random(@SEED@)
 work = os.path.realpath(tempfile.mkdtemp(prefix='c04_'))
 blank = open(p8png.EMPTY_LABEL_FNAME, 'rb').read()
@@ -241,7 +203,7 @@ print(json.dumps({'n': n, 'bad': bad[:8]}))
 
 def native_start(seed, quick):
     env = {'PYTHONPATH': source.REPO, 'PATH': '/usr/bin:/bin', 'PYTHONDONTWRITEBYTECODE': '1', 'HOME': '/nonexistent'}
-    return subprocess.Popen([source.REAL_PY, '-c', _NATIVE.replace('@SEED@', str(seed)).replace('@QUICK@', '1' if quick else '0')],
+    return subprocess.Popen([source.REAL_PY, '-c', _NATIVE.replace('@SEED@', str(seed)).replace('@QUICK@', '1' if quick else '0').replace('@VERIF@', repr(os.path.dirname(os.path.dirname(os.path.abspath(__file__)))))],
                             stdout=subprocess.PIPE, stderr=subprocess.PIPE, text=True, env=env, cwd='/')
 
 
